@@ -23,6 +23,11 @@ def register(reg):
                  ("enough_units_single_steps", "implies(n >= 2 and snapshots >= n - 1, result == 1)")],
         frame=[], props=("C01", "C02", "C03", "C12", "C17"),
         exc_props={"ValueError": ("C17",)},
+        # cut lemmas on the floor-division terms (each a small nonlinear fact, proved where the
+        # term is computed and then used linearly by the return branches)
+        hints={"b_sm1_tm2": [("bounds", "0 <= b_sm1_tm2 and b_sm1_tm2 <= b_s_tm2")],
+               "b_sm1_tm1": [("bounds", "1 <= b_sm1_tm1 and b_sm1_tm1 <= b_s_tm1")],
+               "b_sm2_tm1": [("bounds", "0 <= b_sm2_tm1 and b_sm2_tm1 <= b_sm1_tm1")]},
         loops=[LoopSpec("b_s_tm1 >= n or n > b_s_t", [
             ("domain", "n >= 4 and 2 <= snapshots and snapshots <= n - 2"),
             ("t", "t >= 2"),
@@ -30,6 +35,49 @@ def register(reg):
             ("beta_lower_bounds", "b_s_t >= t + 1 and b_s_tm1 >= t"),
             ("below_n", "b_s_tm1 < n")],
             decreases="n - b_s_t + 1")]))
+
+    # F15 ---------------------------------------------------------------- optimal_extra_steps
+    # GWX(n, s): the Griewank-Walther optimum of *extra* forward steps as the recurrence (2) of
+    # GW2000 (DESIGN.md 6.1), with s clamped to n-1; these axioms are its definition.
+    reg.spec_function("GWX", ["int", "int"], "int")
+    reg.spec_axioms("GWX", [
+        ("GWX.one_step", "forall_int(lambda s: GWX(1, s) == 0)"),
+        ("GWX.clamp", "forall_int(lambda n, s: implies(n >= 2 and s > n - 1, GWX(n, s) == GWX(n, n - 1)))"),
+        ("GWX.one_unit", "forall_int(lambda n: implies(n >= 2, 2 * GWX(n, 1) == n * (n - 1)))"),
+        ("GWX.upper", "forall_int(lambda n, s, i: implies(n >= 3 and 2 <= s and s <= n - 1 and 1 <= i and i < n, "
+                      "GWX(n, s) <= i + GWX(i, s) + GWX(n - i, s - 1)))"),
+        ("GWX.attained", "forall_int(lambda n, s: implies(n >= 3 and 2 <= s and s <= n - 1, "
+                         "exists(1, n, lambda i: GWX(n, s) == i + GWX(i, s) + GWX(n - i, s - 1))))"),
+    ])
+    reg.add(Contract(
+        "multistage.optimal_extra_steps#wrapped", params=[("n", "int"), ("s", "int")],
+        raises=[("ValueError", "n <= 0 or s < min(1, n - 1)")], pure=True, returns="int", uf_params=["n", "s"],
+        ensures=[("is_GW_optimum", "result == GWX(n, s)")], frame=[], assumed=True,
+        note="what callers see through cache_step (s clamped to n-1, memoised): the contract proved on "
+             "the body of optimal_extra_steps; observational purity of the cache is F17",
+        props=("C05",)))
+    reg.alias("optimal_extra_steps", "multistage.optimal_extra_steps#wrapped")
+    reg.add(Contract(
+        "multistage.optimal_extra_steps", params=[("n", "int"), ("s", "int")],
+        requires=[("clamped_by_wrapper", "s <= n - 1")],
+        raises=[("ValueError", "n <= 0 or s < min(1, n - 1) or s > n - 1")],
+        returns="int", ensures=[("is_GW_optimum", "result == GWX(n, s)")], frame=[],
+        locals={"m": ("opt", "int")},
+        loops=[LoopSpec("for i in range(1, n)", [
+            ("index", "1 <= it_i and it_i <= n"),
+            ("domain", "n >= 3 and 2 <= s and s <= n - 1"),
+            ("none_before_first", "(m is None) == (it_i == 1)"),
+            ("lower_bound_so_far", "implies(m is not None, forall(1, it_i, lambda j: "
+                                   "m <= j + GWX(j, s) + GWX(n - j, s - 1)))"),
+            ("attained_so_far", "implies(m is not None, exists(1, it_i, lambda j: "
+                                "m == j + GWX(j, s) + GWX(n - j, s - 1)))")],
+            decreases="n - it_i")],
+        props=("C05",), exc_props={"ValueError": ("C05", "C17"), "*": ("C05", "C17")}))
+    reg.add(Contract(
+        "multistage.optimal_steps_binomial", params=[("n", "int"), ("s", "int")],
+        raises=[("ValueError", "n <= 0 or s < min(1, n - 1)")],
+        returns="int", ensures=[("total_is_n_plus_GW_optimum", "result == n + GWX(n, s)")], frame=[],
+        props=("C05",), exc_props={"ValueError": ("C05", "C17")}))
 
     # F13 ---------------------------------------------------------------- allocate_snapshots (Tier C)
     reg.add(Contract(
